@@ -18,12 +18,16 @@ type vEnt16J struct {
 	N int64
 	S string
 	A interface{} // holds an int64 when written; read back as a number of the decoder's choosing
+	P string      // constant, repetitive: makes the document longer than its compressed form
 }
 
 type vEnt16X struct {
 	N int64
 	S string
+	P string
 }
+
+const v16Pad = "abababababababababababababababababababababababababababababababababababababababababababababababababababababababababababababababababababababababababababababab"
 
 const (
 	vMsg16Equal  = "C16: an entity written and read back with the same Content-Type differs from the original"
@@ -48,9 +52,9 @@ func v16Write(kind, wmode int, n int64, s string) ([][]byte, string) {
 	resp.PrettyPrint(wmode&1 == 1)
 	var v interface{}
 	if kind == 1 {
-		v = vEnt16X{N: n, S: s}
+		v = vEnt16X{N: n, S: s, P: v16Pad}
 	} else {
-		v = vEnt16J{N: n, S: s, A: n}
+		v = vEnt16J{N: n, S: s, A: n, P: v16Pad}
 	}
 	switch {
 	case wmode&4 != 0:
@@ -85,7 +89,8 @@ func v16Read(kind int, ct, ce string, body []byte) (o v16Out) {
 	if ce != "" {
 		hd["Content-Encoding"] = []string{ce}
 	}
-	hr := &http.Request{Method: "POST", URL: &url.URL{Path: "/"}, Header: hd, Body: verifBody(body)}
+	// the announced length is the length on the wire (of the encoded body), as a server sets it
+	hr := &http.Request{Method: "POST", URL: &url.URL{Path: "/"}, Header: hd, Body: verifBody(body), ContentLength: int64(len(body))}
 	req := NewRequest(hr)
 	defer func() {
 		if x := recover(); x != nil {
@@ -144,7 +149,8 @@ func v16Value(tag string) (int64, string) {
 //
 //	0 the Content-Type the writer set, verbatim; 1 that plus a symbolic parameter suffix (";charset=..." etc.);
 //	2 no Content-Type header, the default request content type is the writer's; 3 an unregistered Content-Type with
-//	that default; 4 an unregistered Content-Type and no default (reading must fail, not panic);
+//	that default; 4 an unregistered Content-Type and no default (reading must fail, not panic); 5/6 the writer's
+//	Content-Type with/without a parameter suffix while the default names the other registered type;
 //
 // hist: requests read before, with the same provider - 0 none; 1 declared gzip, stream header destroyed; 2 declared
 // gzip, stream cut short; 3 declared gzip, body not compressed; 4 declared deflate, destroyed; 5 plain, document cut
@@ -179,6 +185,17 @@ func H_C16(kind, coding, provider, wmode, ctmode, hist int) {
 		DefaultRequestContentType(wct)
 	case 4:
 		ct = "x/y"
+	case 5, 6:
+		// the writer's Content-Type (5: with a parameter suffix) while the default request content type names the OTHER
+		// registered media type: the default is a fallback, not an override
+		if ctmode == 5 {
+			suffix := nondetString("ctsuffix", 8)
+			verifAssume(strings.HasPrefix(strings.TrimLeft(suffix, " "), ";"))
+			verifAssume(!strings.Contains(suffix, "/"))
+			ct = wct + suffix
+		}
+		DefaultRequestContentType(v16Mime(1 - kind))
+		verifCover("other-default-set")
 	}
 
 	// earlier requests
@@ -217,6 +234,8 @@ func H_C16(kind, coding, provider, wmode, ctmode, hist int) {
 			DefaultRequestContentType("")
 			if ctmode == 2 || ctmode == 3 {
 				DefaultRequestContentType(wct)
+			} else if ctmode >= 5 {
+				DefaultRequestContentType(v16Mime(1 - kind))
 			}
 			verifAssert(!o.panicked, vMsg16Panic)
 			verifAssert(o.err == nil, vMsg16Err)
